@@ -57,7 +57,11 @@ func buildDesc(inp M) (in []byte, data []byte) {
 			data = prbytes("certdata", num(inp, "dwlen")-8)
 		}
 		b.Write(data)
-		b.Write(prbytes("payload", num(inp, "payload")))
+		if str(inp, "pfill") == "zero" {
+			b.Write(make([]byte, num(inp, "payload"))) // a payload that looks like alignment padding is still the caller's
+		} else {
+			b.Write(prbytes("payload", num(inp, "payload")))
+		}
 	}
 	for b.Len() < avail {
 		b.Write(prbytes(fmt.Sprint("fill", b.Len()), 64))
